@@ -16,7 +16,14 @@ PY
 while read id prop commit clause; do
   wt=/tmp/wtf/$id
   git -C /repo worktree add --detach $wt HEAD -q 2>/dev/null || { echo "$id: cannot create worktree"; continue; }
+  also=""
   if ! git -C $wt revert --no-commit $commit >/dev/null 2>&1; then
+    # later repairs rewrote the same lines: revert those too (newest first), then this one
+    git -C $wt revert --abort >/dev/null 2>&1; git -C $wt reset -q --hard HEAD
+    files=$(git -C /repo show --format= --name-only $commit)
+    also=$(git -C /repo log --format=%h $commit..HEAD -- $files | tr '\n' ' ')
+  fi
+  if [ -n "$also" ] && ! git -C $wt revert --no-commit $also $commit >/dev/null 2>&1; then
     echo "$id $prop $commit: revert conflicts with later fixes (skipped)"
     python3 - $id <<'PY'
 import json,sys
@@ -33,16 +40,18 @@ PY
   hit=$(echo "$out" | grep -A1 '^VIOLATION' | grep -c "clause=$clause")
   first=$(echo "$out" | grep -B1 "clause=$clause" | grep '^VIOLATION' | head -1 | sed 's/.*replay=//')
   [ -n "$first" ] && [ -f "$first" ] && cp "$first" regressions/$id.json
-  python3 - $id $prop $commit "$clause" $code $hit "$tests" <<'PY'
+  python3 - $id $prop $commit "$clause" $code $hit "$tests" "$also" <<'PY'
 import json,sys
-id_,prop,commit,clause,code,hit,tests=sys.argv[1:8]
+id_,prop,commit,clause,code,hit,tests,also=sys.argv[1:9]
 p='/verif/regressions/fix_matrix.json'
 try: m=json.load(open(p))
 except Exception: m={}
 m[id_]={'reverted':True,'property':prop,'commit':commit,'clause':clause,'check_exit':int(code),
         'violations_with_the_clause':int(hit),'pinned_tests_with_the_revert':tests,'returned':int(code)==1 and int(hit)>0}
+if also.strip():
+    m[id_]['later_repairs_of_the_same_lines_reverted_too']=also.split()
 json.dump(m,open(p,'w'),indent=1,sort_keys=True)
 PY
   git -C /repo worktree remove --force $wt
-  echo "$id $prop $commit: exit=$code violations_with_clause=$hit tests='$tests'"
+  echo "$id $prop $commit: exit=$code violations_with_clause=$hit tests='$tests' also_reverted='$also'"
 done < /tmp/wtf/list
